@@ -21,6 +21,7 @@
 -/
 import IgrisModel.C19.Lemmas
 import IgrisModel.C19.Lemmas2
+import IgrisModel.C19.LemmasPtr
 namespace Igris.C19
 open Igris.Proto
 
@@ -762,5 +763,197 @@ theorem rshellExecuteV_spec (a0 : Str) (rest : List Str) (table : List Str) (dro
 /-- `argc = 0` is outside the routine's contract: it reads `argv[0]` -/
 theorem rshellExecuteV_argc0_witness (table : List Str) (d : Nat) :
     rshellExecuteV [] table d = none := rfl
+
+
+/-! # Extension (round 4): "stays in bounds" as a theorem
+
+Pointer-level models: Ptr.lean (explicit indices into a memory of exactly the
+given extent; `PR.oob i` = an access at index `i` outside it, `PR.fuel` = a
+loop did not end; loop tests in the order the code evaluates them).  For each
+routine: `…P_safe` — for EVERY input the pointer-level model yields `PR.ok` of
+the specified value (no access outside the extent, every loop ends);
+`…P_refines` — it computes what the list-level model of Model.lean computes
+(so every value theorem above is a theorem about it); `…OrigP_overread_witness`
+— the body before the repair yields `PR.oob` on the inputs recorded in
+corpus/C19/fixed-defects.ops.  The driver runs the `…P` functions. -/
+
+/-! ## split -/
+
+/-- `split(buf, delim)`, pointer level: never an access outside `[data, data+size)`,
+both loops end, and the tokens are the maximal runs -/
+theorem splitCharP_safe (buf : Str) (delim : Byte) :
+    splitCharP buf delim = .ok (runs (· == delim) buf) :=
+  splitCharLoopP_eq buf delim _ 0 [] _ (by omega) (by rw [List.drop_zero]; exact splitChar_eq_runs buf delim)
+
+theorem splitCharP_refines (buf : Str) (delim : Byte) :
+    (splitCharP buf delim).toOption = splitChar buf delim := by
+  rw [splitCharP_safe, splitChar_eq_runs]; rfl
+
+/-- 8b4a8e9: `while (*ptr == delim) ptr++;` read `data[size]` — index 0 of the
+empty buffer, index 1 of "a" (`splitc - 20`, `splitc 61 20`) -/
+theorem splitCharOrigP_overread_witness :
+    splitCharOrigP [] SP = .oob 0 ∧ splitCharOrigP [0x61#8] SP = .oob 1 := by decide
+
+/-- `split(buf, delims)`, pointer level (exact behaviour: NUL is a delimiter too) -/
+theorem splitDelimsP_safe (buf delims : Str) :
+    splitDelimsP buf delims = .ok (runs (fun c => c == NUL || delims.contains c) buf) := by
+  have h := splitDelims_eq_runs_with_nul buf delims
+  unfold splitDelims at h
+  unfold splitDelimsP
+  by_cases h0 : buf.length = 0
+  · rw [if_pos h0] at h; rw [if_pos h0, ← Option.some.inj h]; rfl
+  · rw [if_neg h0] at h; rw [if_neg h0]
+    exact splitDelimsLoopP_eq buf delims _ 0 [] _ (by omega) (by rw [List.drop_zero]; exact h)
+
+theorem splitDelimsP_refines (buf delims : Str) :
+    (splitDelimsP buf delims).toOption = splitDelims buf delims := by
+  rw [splitDelimsP_safe, splitDelims_eq_runs_with_nul]; rfl
+
+/-- 76a8f9d: `while (strchr(delims, *ptr) != NULL && ptr != end)` read `data[size]`
+after a trailing delimiter (`splitd 6120 202f`: index 2 of a 2-byte buffer) -/
+theorem splitDelimsOrigP_overread_witness :
+    splitDelimsOrigP [0x61#8, SP] [SP, SLASH] = .oob 2 := by decide
+
+/-! ## split_cmdargs -/
+
+theorem splitCmdargsP_safe (buf : Str) : splitCmdargsP buf = .ok (cmdargsSpec buf) := by
+  have h := splitCmdargs_eq buf
+  unfold splitCmdargs at h
+  unfold splitCmdargsP
+  by_cases h0 : buf.length = 0
+  · rw [if_pos h0] at h; rw [if_pos h0, ← Option.some.inj h]; rfl
+  · rw [if_neg h0] at h; rw [if_neg h0]
+    exact cmdargsLoopP_eq buf _ 0 [] _ (by omega) (by rw [List.drop_zero]; exact h)
+
+theorem splitCmdargsP_refines (buf : Str) : (splitCmdargsP buf).toOption = splitCmdargs buf := by
+  rw [splitCmdargsP_safe, splitCmdargs_eq]; rfl
+
+/-- 16fd822: `while (*ptr == ' ' && ptr != end)` read `data[size]` after the last
+token / the closing quote (`cmdargs 61`, `cmdargs 226122`) -/
+theorem splitCmdargsOrigP_overread_witness :
+    splitCmdargsOrigP [0x61#8] = .oob 1 ∧ splitCmdargsOrigP [DQ, 0x61#8, DQ] = .oob 3 := by decide
+
+/-! ## trim -/
+
+/-- `trim(view)`, pointer level: `left` stays in `[0, size]`, `right` (which is
+decremented) in `[left, size-1]` — in particular never below 0 — and the
+result is the strip -/
+theorem trimP_safe (view : Str) : trimP view = .ok (strip isWsTrim view) := by
+  rw [trimP_eq, trim_eq_strip]
+
+theorem trimP_refines (view : Str) : trimP view = .ok (trim view) := trimP_eq view
+
+/-! ## igris_memmem, replace, replace_substrings -/
+
+/-- `igris_memmem(l, l_len, s, s_len)` on exactly sized blocks: every `cur[0]`,
+`cs[0]`, `memcmp` and `memchr` access is inside them; result = the list-level
+`memmem` (for which `memmem_some` / `memmem_none` hold) -/
+theorem memmemP_refines (l s : Str) : memmemP l 0 l.length s s.length = .ok (memmem l s) := by
+  have := memmemP_eq l s 0 (by omega)
+  simp only [Nat.sub_zero, List.drop_zero, Nat.add_zero] at this
+  rw [this]
+  cases memmem l s <;> rfl
+
+theorem memmemP_safe (l s : Str) (hs : s ≠ []) : memmemP l 0 l.length s s.length = .ok (firstOcc s l) := by
+  rw [memmemP_refines, memmem_eq_firstOcc l s hs]
+
+-- the hypothesis is satisfiable
+example : ([0x61#8] : Str) ≠ [] := by decide
+
+/-- the same for a call on the rest of a block from index `b` on (the calls of
+`replace` / `replace_substrings`): the returned pointer is `b + offset` -/
+theorem memmemP_rest (lm sm : Str) (b : Nat) (hb : b ≤ lm.length) :
+    memmemP lm b (lm.length - b) sm sm.length = .ok ((memmem (lm.drop b) sm).map (· + b)) :=
+  memmemP_eq lm sm b hb
+
+example : (0 : Nat) ≤ ([0x61#8] : Str).length := by decide
+
+/-- `igris::replace`, pointer level -/
+theorem replaceP_safe (input sub rep : Str) : replaceP input sub rep = .ok (subst sub rep input) :=
+  replaceP_eq input sub rep
+
+theorem replaceP_refines (input sub rep : Str) : (replaceP input sub rep).toOption = replace input sub rep := by
+  rw [replaceP_safe, replace_eq_subst]; rfl
+
+/-- `replace_substrings`, pointer level: the destination is a block of exactly
+`maxsize` bytes; no `memcpy` and not the final `*bufit = 0` touches
+`buffer[maxsize]` or beyond, no read leaves `input` / `rep`, for every `maxsize` -/
+theorem replaceSubstringsP_safe (maxsize : Nat) (input sub rep : Str) :
+    replaceSubstringsP maxsize input sub rep =
+      .ok (if maxsize = 0 then [] else (subst sub rep input).take (maxsize - 1) ++ [NUL]) :=
+  replaceSubstringsP_refines maxsize input sub rep _ (replaceSubstrings_eq maxsize input sub rep)
+
+theorem replaceSubstringsP_refines' (maxsize : Nat) (input sub rep : Str) :
+    (replaceSubstringsP maxsize input sub rep).toOption = replaceSubstrings maxsize input sub rep := by
+  rw [replaceSubstringsP_safe, replaceSubstrings_eq]; rfl
+
+/-- d4e621a: the unrepaired routine wrote behind the destination
+(`rsub 2 61616161 61 6262`, `rsub 0 6161 61 62`, `rsub 3 61616161 - 62`) -/
+theorem replaceSubstringsOrigP_overwrite_witness :
+    replaceSubstringsOrigP 2 [0x61#8, 0x61#8, 0x61#8, 0x61#8] [0x61#8] [0x62#8, 0x62#8] = .oob 2
+    ∧ replaceSubstringsOrigP 0 [0x61#8, 0x61#8] [0x61#8] [0x62#8] = .oob 0
+    ∧ replaceSubstringsOrigP 3 [0x61#8, 0x61#8, 0x61#8, 0x61#8] [] [0x62#8] = .oob 3 := by decide
+
+/-! ## join -/
+
+/-- `join(vec, delim)`, iterators as indices: `*iter` only for `iter < size` -/
+theorem joinP_safe (vec : List Str) (delim : Byte) : joinP vec delim = .ok (List.intercalate [delim] vec) := by
+  rw [joinP_eq, join_eq_intercalate]
+
+theorem joinP_refines (vec : List Str) (delim : Byte) : joinP vec delim = .ok (join vec delim) := joinP_eq vec delim
+
+/-- the iterator-range `join`: the counter `i` is a 32-bit `unsigned`, so the
+statement is for ranges of at most 2³² elements -/
+theorem joinFmtP_safe (vec : List Str) (delim pre post : Str) (h32 : vec.length ≤ 2 ^ 32) :
+    joinFmtP vec delim pre post = .ok (pre ++ List.intercalate delim vec ++ post) := by
+  rw [joinFmtP_eq' vec delim pre post h32, joinFmt_eq]
+
+example : ([[0x61#8]] : List Str).length ≤ 2 ^ 32 := by decide
+
+/-- 6236ab4: without the `tot == 0` guard `tot - 1` wraps and `*it` is read on
+the empty range (`joinf 2c 5b 5d`) -/
+theorem joinFmtOrigP_overread_witness : joinFmtOrigP [] [0x2c#8] [0x5b#8] [0x5d#8] = .oob 0 := by decide
+
+/-! ## argvc_internal_split_n -/
+
+/-- `argvc_internal_split_n`, pointer level, on exactly `maxlen` bytes and an
+`argv` array of exactly `argcmax` slots: no read or write at or behind
+`data[maxlen]`, no store at or behind `argv[argcmax]`; the result (argc,
+pointers as indices, the line after the call) is that of the list-level model,
+for which `argvSplitN_spec` / `argvSplitN_writes` hold -/
+theorem argvSplitNP_refines (data : Str) (argcmax : Nat) :
+    ∃ r, argvSplitNP data argcmax = .ok r ∧ argvSplitN data argcmax = some r := by
+  obtain ⟨r, h, _⟩ := argvSplitN_spec data argcmax
+  refine ⟨r, ?_, h⟩
+  have := argvSplitNLoopP_eq argcmax (data.length + 1) data 0 0 [] r (by omega) (by rw [List.drop_zero]; exact h)
+  unfold argvSplitNP
+  rw [this]
+  simp
+
+/-- eff14ad: the unrepaired tests read `data[maxlen]` (`argvn 61 2`, `argvn 6120 2`) -/
+theorem argvSplitNOrigP_overread_witness :
+    argvSplitNOrigP [0x61#8] 2 = .oob 1 ∧ argvSplitNOrigP [0x61#8, SP] 2 = .oob 2 := by decide
+
+/-! ## creader_readline -/
+
+/-- one call, pointer level: the forward scan tests `it != fini` before `*it`,
+the rewind never reads in front of `*token`; value = the list-level model
+(`creaderReadline_spec`); the new cursor stays inside `[strt, fini]` -/
+theorem creaderReadlineP_refines (mem : Str) (cursor : Nat) (h : cursor ≤ mem.length) :
+    ∃ r, creaderReadlineP mem cursor = .ok r ∧ creaderReadline mem cursor = some r ∧ r.2.2 ≤ mem.length := by
+  obtain ⟨r, h1, h2, h3⟩ := creaderReadlineP_eq mem cursor h
+  exact ⟨r, h2, h1, h3⟩
+
+example : (0 : Nat) ≤ ([0x61#8] : Str).length := by decide
+
+/-- the read loop over the pointer-level reader ends on every buffer, without a fault -/
+theorem creaderP_loop_ends (mem : Str) : ∃ l, creaderAllP mem (mem.length + 2) 0 = .ok (l, true) := by
+  obtain ⟨l, h⟩ := creader_loop_ends mem
+  exact ⟨l, creaderAllP_eq mem _ 0 (by omega) _ h⟩
+
+/-- 6d1ea18: `while (*it != '\n' && *it != '\0' && it != fini)` read `*fini` on an
+unterminated last line (`creader 6162`) -/
+theorem creaderReadlineOrigP_overread_witness :
+    creaderReadlineOrigP [0x61#8, 0x62#8] 0 = .oob 2 := by decide
 
 end Igris.C19
